@@ -17,6 +17,28 @@ MODULE = "ProbLogProofs.Properties.C11"
 THEOREMS = [
     "ProbLogProofs.C11.C11_negate",
     "ProbLogProofs.C11.C11_negate_involutive",
+    "ProbLogProofs.C11.C11_grows_consistent",
+    "ProbLogProofs.C11.C11_earlier_keys_keep_meaning",
+    "ProbLogProofs.C11.C11_grows_refl",
+    "ProbLogProofs.C11.C11_grows_trans",
+    "ProbLogProofs.C11.C11_addCompound_spec",
+    "ProbLogProofs.C11.C11_addCompound_error",
+    "ProbLogProofs.C11.C11_addAnd",
+    "ProbLogProofs.C11.C11_addOr",
+    "ProbLogProofs.C11.C11_addAtom_grows",
+    "ProbLogProofs.C11.C11_addAtom_key",
+    "ProbLogProofs.C11.C11_addName_preserves",
+    "ProbLogProofs.C11.C11_addDisjunct",
+    "ProbLogProofs.C11.C11_addDisjunct_others_unchanged",
+    "ProbLogProofs.C11.C11_addDisjunct_hashconsed_refuted",
+    "ProbLogProofs.C11.C11_wf_empty",
+    "ProbLogProofs.C11.C11_acyclic_exists_unique",
+    "ProbLogProofs.C11.C11_acyclic_empty",
+    "ProbLogProofs.C11.C11_addCompound_acyclic",
+    "ProbLogProofs.C11.C11_addAtom_acyclic",
+    "ProbLogProofs.C11.C11_addName_acyclic",
+    "ProbLogProofs.C11.C11_keyBelow_negate",
+    "ProbLogProofs.C11.C11_keyBelow_grows",
 ]
 
 MANIFEST = {
